@@ -274,8 +274,9 @@ def bool_facts(prog, body, blk, depth=0):
     for s, lab, d, info in core.guards_dominating(prog, body, blk):
         if lab in ("true", "false"):
             out.append((d, lab == "true"))
-            if lab == "true":
-                out.extend(_short_circuit(prog, body, core.op_local(body.term(s)["discr"]), depth))
+            ts_ = body.term(s) if isinstance(s, int) else None
+            if lab == "true" and ts_ and ts_.get("discr") is not None:
+                out.extend(_short_circuit(prog, body, core.op_local(ts_["discr"]), depth))
         elif lab in ("Continue", "Ok"):
             # Try::branch(wrapper(cond)) == Continue  /  wrapper(cond) is Ok
             for c in core.desc_calls(d):
